@@ -34,7 +34,7 @@ para = ("Totals (%d changes): %d were caught by the check of their own property 
         "(every such row says what was added); %d are caught by the check of a\n"
         "neighbouring property that owns the clause they break (a stall is C04's, a\n"
         "deadline after a dial with timeout is C16's, handlers bypassing the job queue at\n"
-        "the WebSocket layer are C14's, a panicking job is C05's) and are deliberately not\n"
+        "the WebSocket layer are C14's, a panicking job is C05's, Timer.Async is C19's) and are deliberately not\n"
         "asserted twice: %s. Left uncaught: %s.\n") % (tot, first, later, len(other), ', '.join(other), ', '.join(never) or 'none')
 s = open(p).read()
 b = s.index('<!-- seeded-totals:begin -->') + len('<!-- seeded-totals:begin -->\n')
